@@ -8,7 +8,8 @@
    `parse_n n` is the parser with fuel n for UnionNode replays; `parse = parse_n (length evs)`.
    The statements hold for every fuel. *)
 From Coq Require Import NArith ZArith List Bool Arith.
-From XV Require Import Base.Str Base.Eqb Base.PyInt Model.Bind Model.Parser Model.ParserCorr Spec.Inject
+From XV Require Import Base.Str Base.Eqb Base.PyInt Model.Bind Model.DictCodec Model.DictLeak Model.DictLeakCorr
+  Proofs.DictLeakDoc Proofs.DictLeakSkip Model.Parser Model.ParserCorr Spec.Inject
   Proofs.ParserSkip Proofs.ParserMatrix Proofs.ParserAttrs Proofs.ParserWitness Proofs.ParserFuel.
 Import ListNotations.
 
@@ -164,3 +165,39 @@ Theorem C10_union_replay_only_config : forall cfg c (r1 r2 : replay_t) un q t tl
   union_bind cfg c r1 un q t tl objs = union_bind cfg c r2 un q t tl objs.
 Proof. exact union_bind_replay_config. Qed.
 Print Assumptions C10_union_replay_only_config.
+
+(* 9. dictionary / JSON decoder (Model/DictLeak.v): with fail_on_unknown_properties off, a key
+      that matches no field and no wrapper of the class (DictDecoder.find_var answers None) can be
+      added anywhere in a dictionary bound by bind_dataclass without changing the outcome (the
+      derived-element key set {qname, type, value} excepted: it switches the reading of the
+      dictionary); with the strict default the same key is a ParserError *)
+Theorem C10_dict_unknown_key_transparent : forall g c u cfg cl meta m1 k x m2,
+  d_fail_unknown cfg = false ->
+  u_meta u cl = Some meta ->
+  find_var (get_all_vars meta) k x = None ->
+  keys_are (m1 ++ m2) DERIVED_KEYS = false ->
+  keys_are (m1 ++ (k, x) :: m2) DERIVED_KEYS = false ->
+  DictLeak.decode g c u cfg (Some cl) false (JDict (m1 ++ (k, x) :: m2))
+  = DictLeak.decode g c u cfg (Some cl) false (JDict (m1 ++ m2)).
+Proof. exact decode_unknown_key_transparent. Qed.
+Print Assumptions C10_dict_unknown_key_transparent.
+
+Theorem C10_dict_unknown_key_transparent_nested : forall g c u cfg cl meta m1 k x m2,
+  d_fail_unknown cfg = false ->
+  u_meta u cl = Some meta ->
+  find_var (get_all_vars meta) k x = None ->
+  keys_are (m1 ++ m2) DERIVED_KEYS = false ->
+  keys_are (m1 ++ (k, x) :: m2) DERIVED_KEYS = false ->
+  dec g c u (JDict (m1 ++ (k, x) :: m2)) cfg (EDataclass cl) = dec g c u (JDict (m1 ++ m2)) cfg (EDataclass cl).
+Proof. exact dict_unknown_key_transparent. Qed.
+Print Assumptions C10_dict_unknown_key_transparent_nested.
+
+Theorem C10_dict_unknown_key_strict : forall g c u cfg cl meta m1 k x m2 acc,
+  d_fail_unknown cfg = true ->
+  u_meta u cl = Some meta ->
+  find_var (get_all_vars meta) k x = None ->
+  keys_are (m1 ++ (k, x) :: m2) DERIVED_KEYS = false ->
+  bind_items c cfg meta (get_all_vars meta) m1 (map (fun kv => (fst kv, dec g c u (snd kv))) m1) [] = DOk acc ->
+  dec g c u (JDict (m1 ++ (k, x) :: m2)) cfg (EDataclass cl) = DErr KParserError.
+Proof. exact dict_unknown_key_strict. Qed.
+Print Assumptions C10_dict_unknown_key_strict.
